@@ -25,6 +25,7 @@ func c20(c *Ctx) {
 	c20R2(c, "R2")
 	sTransferFlag(c, "R2/S-TRANSFER")
 	c20R6(c, "R6")
+	c11R4(c, "R7/C11.R4")
 }
 
 func c20R1345(c *Ctx) {
@@ -91,6 +92,26 @@ func c20R1345(c *Ctx) {
 		return admitted(v) && v.Seen("create") && v.F("createErr") && v.Seen("copied") && v.F("copyErr") && v.F("short") && v.Seen("close") && v.F("closeErr")
 	}
 	restored := func(v engine.View) bool { return durable(v) && v.Seen("sent") && v.Seen("waited") && v.F("restoreErr") }
+
+	// the sink is finalized (and so becomes a listed snapshot) only once the
+	// stream is known to be complete: Cancel after Close removes nothing
+	nClose := 0
+	engine.EachInstr(fn, func(in ssa.Instruction) {
+		cc := engine.CallCommonOf(in)
+		if cc == nil || !cc.IsInvoke() || cc.Method.Name() != "Close" || !strings.HasPrefix(c.P.D(cc.Value), sink) {
+			return
+		}
+		if _, isDefer := in.(*ssa.Defer); isDefer {
+			return
+		}
+		nClose++
+		c.RequireAt(r, "R2", "restoreUserSnapshot:close-only-after-size-verified", in, "the local snapshot is closed (published) only after the copy returned without error and the byte count equals meta.Size; a refused restore is cancelled, never published", func(v engine.View) bool {
+			return v.Seen("copied") && v.F("copyErr") && v.F("short")
+		})
+	})
+	if nClose == 0 {
+		c.Bad("R2", "restoreUserSnapshot:close", c.P.Pos(fn.Pos()), "a Close of the created sink", "none")
+	}
 
 	// R1: every effect after the two refusals
 	n := 0
